@@ -249,9 +249,20 @@ where
 
         let mut data = unsafe { vec.as_mut_bytes() };
         let mut pos = 0;
-        let mut last_offset_slot = None::<&mut [u8]>;
+        // Slot of the most recent item together with the offset that seals it.
+        // The offset is only written (and has to be representable) once another item follows.
+        let mut last_offset_slot = None::<(&mut [u8], usize)>;
 
         for item_emplacer in self.iter {
+            if let Some((offset_slot, offset)) = last_offset_slot.take() {
+                L::from_usize(offset)
+                    .and_then(|o| if o < L::max_value() { Some(o) } else { None })
+                    .ok_or(Error {
+                        kind: ErrorKind::InsufficientSize,
+                        pos: pos - offset,
+                    })?
+                    .emplace(offset_slot)?;
+            }
             if data.len() < offset_size {
                 return Err(Error {
                     kind: ErrorKind::InsufficientSize,
@@ -262,20 +273,13 @@ where
             let item = item_emplacer.emplace(payload)?;
             let payload_size = ceil_mul(item.size(), FlexVec::<T, L>::ALIGN);
             let offset = offset_size + payload_size;
-            L::from_usize(offset)
-                .and_then(|o| if o < L::max_value() { Some(o) } else { None })
-                .ok_or(Error {
-                    kind: ErrorKind::InsufficientSize,
-                    pos,
-                })?
-                .emplace(offset_slot)?;
-            last_offset_slot = Some(offset_slot);
+            last_offset_slot = Some((offset_slot, offset));
 
             data = payload.split_at_mut(payload_size).1;
             pos += offset;
         }
         match last_offset_slot {
-            Some(offset_slot) => L::max_value().emplace(offset_slot)?,
+            Some((offset_slot, _)) => L::max_value().emplace(offset_slot)?,
             None => L::zero().emplace(data)?,
         };
 
